@@ -180,6 +180,7 @@ def run(ck):
     adapters(ck)
     logmessage(ck)
     listdiscipline(ck)
+    whole_pipeline(ck)
 
 
 def loop_direction(ck, fn, loop):
@@ -718,3 +719,50 @@ def listdiscipline(ck):
     rv = return_values_under(en, g, atom_eq(isp, False))
     ok = bool(rv) and all(unwrap_ptr(v).get("k") == "this" for _, v in rv)
     ck.ob("C01-O7", sitestr(en), ok, "end() returns *this at the top level" if ok else "end() without a parent returns %s" % [describe(v) for _, v in rv], key="SimplePipeline::end|top")
+
+
+def whole_pipeline(ck):
+    """C01-O10: a builder operation that is given a pipeline *by value* (`logger << Pipeline({...}, true)`) takes it whole. The scoped flag is
+    private to the object: a function that only reads the argument's handler list and re-creates a pipeline from it silently makes a scoped
+    sub-pipeline unscoped - its formatted text and attributes leak into the siblings that follow."""
+    F = ck.facts
+    ck.rule("C01-O10", "a function that receives a Pipeline object by (const) reference or value and passes it on does so as a whole: the same object or a copy made by the "
+                       "copy constructor (which copies the scoped flag); it does not rebuild it from handlers()")
+    PIPES = (P, "QtLogger::SortedPipeline", "QtLogger::SimplePipeline")
+
+    def pipe_param(p):
+        t = (p.get("type") or "").replace("const ", "").replace("&&", "").replace("&", "").strip()
+        t = t if t.startswith("QtLogger::") else "QtLogger::" + t
+        return t in PIPES
+    n_inst = 0
+    for f in sorted(F.fns.values(), key=lambda x: x.sig):
+        if f.body is None or not in_lib(f.file) or f.d.get("copyctor") or f.d.get("movector") or f.d.get("kind") == "copyassign":
+            continue
+        for p in f.params:
+            if not pipe_param(p) or "*" in (p.get("type") or ""):
+                continue
+            d = p["decl"]
+            whole = [n for n in f.all_nodes() if (n.get("k") == "construct" and strip_tmpl(n.get("class") or "") in PIPES and any(is_ref_to(skip_copies(a), d) for a in n.get("args", []))) or
+                     (n.get("k") == "call" and name_is(strip_tmpl(n.get("callee") or ""), "QSharedPointer::create") and any(is_ref_to(skip_copies(a), d) for a in n.get("args", [])))]
+            apart = [n for n in f.calls() if name_is(n.get("callee"), P + "::handlers") and is_ref_to(unwrap_ptr(n.get("obj")), d)]
+            flag = [n for n in f.all_nodes() if (n.get("k") == "member" and (n.get("name") or "").endswith("::m_scoped") and is_ref_to(unwrap_ptr(n.get("base")), d)) or
+                    (n.get("k") == "call" and "scoped" in (n.get("callee") or "").split("::")[-1].lower() and is_ref_to(unwrap_ptr(n.get("obj")), d))]
+            if not whole and not apart:
+                continue
+            n_inst += 1
+            ck.touch(f)
+            short = strip_tmpl(f.name).replace("QtLogger::", "")
+            if apart and not whole:
+                ck.ob("C01-O10", sitestr(f, apart[0]), False if not flag else None,
+                      "%s re-creates the pipeline it is given from its handler list only: the scoped flag of the argument is lost, so `Pipeline({attr, formatter, sink}, /*scoped*/ true)` handed over this way "
+                      "leaks its formatted text and attributes into the handlers that follow" % short if not flag else
+                      "%s takes the argument apart (handlers() and the scoped flag separately)" % short, key="%s|pipeline-by-value" % short)
+            else:
+                ck.ob("C01-O10", sitestr(f, whole[0]), True, "%s hands the pipeline on as a copy of the whole object" % short, key="%s|pipeline-by-value" % short)
+    # the copy itself: implicit / defaulted, or copying both members
+    cc = [f for f in F.fn_all(P + "::Pipeline") if f.d.get("copyctor") and f.body is not None and not f.d.get("implicit") and not f.d.get("defaulted")]
+    for c in cc:
+        got = {i["member"].split("::")[-1] for i in c.inits if i.get("member") and i.get("written")}
+        ck.ob("C01-O10", sitestr(c), {"m_handlers", "m_scoped"} <= got, "Pipeline's copy constructor copies the handler list and the scoped flag" if {"m_handlers", "m_scoped"} <= got else
+              "Pipeline's user-written copy constructor leaves out %s" % sorted({"m_handlers", "m_scoped"} - got), key="Pipeline(copy)|members")
+    ck.require(n_inst >= 1, "no function receiving a Pipeline by value found (operator<<(Logger *, const Pipeline &) confirmed by hand)")
